@@ -35,6 +35,10 @@ What the first pass missed, and what was changed in response (each was then re-r
   scribbles its id on destruction.
 * `C20-m1`, `C20-m2` (async-stack frame not popped on the done path of a task; wrong visitor for coroutine promises): the
   differential did not run coroutines -> task plans under the C++20 configurations with an `async_trace` step.
+* `C09-m1` (cancelled future leaks the shared state when it loses the abandoned->complete race) needs the spawned
+  operation to complete exactly between the future's load and its CAS (hook site 265).  One quick run caught it, a later
+  one did not; the C09 quick tier now perturbs the spawn_future sites (265, 263, 264) first and uses three processes per
+  scope flavour, after which it was caught on 3 of 3 seeds.  Detection of this change remains probabilistic.
 * `C07-m2`, `C08-m1`, `C10-m2`, `C20-m1` first ended as *harness failure* (exit 2) because the process of one mode died on the
   very violation and its coverage counters went missing -> missing coverage caused by a new violation now yields exit 1.
 * Two apparent detections were discarded as coincidences and re-run after the cause was removed: C18-m1/m2 and C20-m1/m2 had
